@@ -73,6 +73,14 @@ func walkStats(fs fsutil.FS, target string) ([]interface{}, error) {
 		}
 		m := statToJSON(st)
 		m["cb"] = hx(p)
+		// the stat of an entry is a fact about the entry: asking again (as wrappers such as the hard-link reset do) must give the same answer
+		if fi2, err2 := e.Info(); err2 != nil {
+			m["info2"] = "error: " + err2.Error()
+		} else if st2, ok := fi2.Sys().(*types.Stat); !ok {
+			m["info2"] = "no stat"
+		} else if !st.EqualVT(st2) {
+			m["info2"] = statToJSON(st2)
+		}
 		out = append(out, m)
 		return nil
 	})
